@@ -315,8 +315,10 @@ def bounded(pr):
 
     def fresh(name, opts, seed=None, cwd_cfg=None):
         code = ("import sys, io, logging\nlogging.disable(logging.CRITICAL)\nsys.path.insert(0, %r); sys.path.insert(0, %r)\n"
-                "from props import native, C03\nm = native.run_text(native.pdb_lines(%r), %r)\n"
-                "import hashlib\nsys.stdout.write(hashlib.sha256(C03_text(m).encode()).hexdigest())\n" % (native.REPO, os.path.dirname(os.path.dirname(__file__)), name, opts))
+                "from props import native, C03\nimport hashlib\n"
+                "try:\n    m = native.run_text(native.pdb_lines(%r), %r)\n    sys.stdout.write(hashlib.sha256(C03_text(m).encode()).hexdigest())\n"
+                "except (ValueError, KeyError) as e:\n    sys.stdout.write('EXC:' + type(e).__name__)\n"
+                % (native.REPO, os.path.dirname(os.path.dirname(__file__)), name, opts))
         code = code.replace('C03_text(m)', 'C03.bounded_text(m)')
         env = dict(os.environ, PYTHONHASHSEED=str(seed if seed is not None else rng.randrange(1, 10 ** 6)))
         d = tempfile.mkdtemp()
@@ -327,6 +329,8 @@ def bounded(pr):
         finally:
             import shutil
             shutil.rmtree(d, ignore_errors=True)
+        if not p.stdout.strip():
+            raise RuntimeError('fresh-process run produced nothing: ' + p.stderr[-400:])
         return p.stdout.strip()
     import hashlib
     import re
@@ -374,11 +378,14 @@ def bounded(pr):
             junk = [object() for _ in range(rng.randint(0, 5000))]     # allocation padding
             kind = rng.choice(['stream', 'path'])
             classes.add((kind, tuple(opts)))
-            if kind == 'stream':
-                mol = native.run_text(native.pdb_lines(name), opts)
-            else:
-                mol = run.single(os.path.join(native.PDB_DIR, name + '.pdb'), optargs=['-q'] + opts, write_pka=False)
-            got = hashlib.sha256(bounded_text(mol).encode()).hexdigest()
+            try:
+                if kind == 'stream':
+                    mol = native.run_text(native.pdb_lines(name), opts)
+                else:
+                    mol = run.single(os.path.join(native.PDB_DIR, name + '.pdb'), optargs=['-q'] + opts, write_pka=False)
+                got = hashlib.sha256(bounded_text(mol).encode()).hexdigest()
+            except (ValueError, KeyError) as e:     # e.g. a chain selection that leaves nothing: the same error is the same outcome
+                got = 'EXC:' + type(e).__name__
             del junk
             if got != ref and len(viol) < 3:
                 viol.append({'what': '%s %s after history %d (%s input): output text differs from a fresh process' % (name, opts, h, kind), 'replay': None})
